@@ -557,3 +557,474 @@ Lemma label_of_nonneg : forall goods k g, 0 <= label_of goods k g <-> g = true.
 Proof.
   intros goods k g. unfold label_of. destruct g; split; intros H; try reflexivity; try lia.
 Qed.
+
+(* ---------- C12 --------------------------------------------------------------- *)
+
+Lemma seg_accept_some : forall P rg mask ph a b, (a < b <= length ph)%nat ->
+  seg_accept P rg mask ph (a, b) <> None.
+Proof.
+  intros P rg mask ph a b H. unfold seg_accept.
+  destruct (negb (mask_ok mask a b)); [discriminate|].
+  destruct rg; [|discriminate]. unfold is_good.
+  destruct (slice ph a b) as [|f t] eqn:E; [|discriminate].
+  exfalso. eapply slice_nonempty; eauto.
+Qed.
+
+Lemma detection_total : forall P rg mask ph, get_cycle_vector P rg mask ph <> None.
+Proof.
+  intros P rg mask ph. unfold get_cycle_vector.
+  destruct (wrap_hits P ph) as [|h t] eqn:E; [discriminate|].
+  assert (Hne : wrap_hits P ph <> []) by (rewrite E; discriminate).
+  destruct (all_some (map (seg_accept P rg mask ph) (adj (boundaries P ph)))) eqn:Ea;
+    [discriminate|].
+  exfalso. revert Ea. apply all_some_total. intros x Hx. apply in_map_iff in Hx.
+  destruct Hx as [[a b] [<- Hab]]. apply In_nth_error in Hab. destruct Hab as [k Hk].
+  apply seg_accept_some. eapply seg_bounds; eauto.
+Qed.
+
+Lemma cycle_vector_length : forall P rg mask ph out,
+  get_cycle_vector P rg mask ph = Some out -> length out = length ph.
+Proof.
+  intros P rg mask ph out H. apply gcv_struct in H.
+  destruct H as [[_ ->]|[Hne [goods [Hg ->]]]].
+  - apply repeat_length.
+  - apply out_length; [exact Hne|]. rewrite sv_length. eapply goods_length; eauto.
+Qed.
+
+Lemma segments_nonempty : forall P ph a b,
+  wrap_hits P ph <> [] ->
+  In (a, b) (adj (boundaries P ph)) -> (a < b <= length ph)%nat.
+Proof.
+  intros P ph a b Hne H. apply In_nth_error in H. destruct H as [k Hk].
+  eapply seg_bounds; eauto.
+Qed.
+
+Lemma labels_consecutive : forall P rg mask ph out,
+  get_cycle_vector P rg mask ph = Some out ->
+  exists K,
+    (forall x, In x out -> x = -1 \/ 0 <= x < K) /\
+    (forall l, 0 <= l < K -> In l out) /\
+    (forall i j x y, (i <= j)%nat -> nth_error out i = Some x -> nth_error out j = Some y ->
+                     0 <= x -> 0 <= y -> x <= y).
+Proof.
+  intros P rg mask ph out H. apply gcv_struct in H.
+  destruct H as [[_ ->]|[Hne [goods [Hg ->]]]].
+  - exists 0. split; [|split].
+    + intros x Hx. apply repeat_spec in Hx. left; exact Hx.
+    + intros l Hl. lia.
+    + intros i j x y _ Hx _ Hx0 _. apply nth_error_repeat_inv in Hx. lia.
+  - exists (Z.of_nat (count_true goods)). split; [|split].
+    + intros x Hx. apply In_nth_error in Hx. destruct Hx as [i Hi].
+      destruct (gcv_out_inv _ _ _ _ _ _ _ Hne Hg Hi)
+        as [k [a [b [g [Hk [Hab [Hgk [_ [_ ->]]]]]]]]].
+      unfold label_of. destruct g; [right|left; reflexivity].
+      pose proof (count_true_firstn_total goods k Hgk). lia.
+    + intros l Hl.
+      destruct (subset_index_exists goods (Z.to_nat l) ltac:(lia)) as [k Hk].
+      rewrite Z2Nat.id in Hk by lia.
+      assert (Hkl : (k < length (adj (boundaries P ph)))%nat).
+      { rewrite <- (goods_length _ _ _ _ _ _ Hg), <- sv_length.
+        apply nth_error_Some. congruence. }
+      destruct (nth_error (adj (boundaries P ph)) k) as [[a b]|] eqn:Ek;
+        [|apply nth_error_None in Ek; lia].
+      pose proof (seg_bounds P ph k a b Hne Ek) as Hb.
+      apply (nth_error_In _ a). eapply out_nth; eauto. lia.
+    + intros i j x y Hij Hx Hy Hx0 Hy0.
+      destruct (gcv_out_inv _ _ _ _ _ _ _ Hne Hg Hx)
+        as [k [a [b [g [Hk [Hab [Hgk [_ [_ ->]]]]]]]]].
+      destruct (gcv_out_inv _ _ _ _ _ _ _ Hne Hg Hy)
+        as [k' [a' [b' [g' [Hk' [Hab' [Hgk' [_ [_ ->]]]]]]]]].
+      apply label_of_nonneg in Hx0, Hy0. subst g g'. unfold label_of.
+      assert (Hkk : (k <= k')%nat).
+      { destruct (le_lt_dec k k') as [L|L]; [exact L|].
+        pose proof (adj_sorted_order _ k' k a' b' a b (boundaries_sorted P ph Hne) L Hk' Hk).
+        lia. }
+      pose proof (count_true_firstn_le goods k k' Hkk). lia.
+Qed.
+
+(* two samples carrying the same non-negative label lie in the same segment *)
+Lemma same_label_same_seg : forall P rg mask ph goods i j l, wrap_hits P ph <> [] ->
+  all_some (map (seg_accept P rg mask ph) (adj (boundaries P ph))) = Some goods ->
+  nth_error (expand (adj (boundaries P ph)) (get_subset_vector goods)) i = Some l ->
+  nth_error (expand (adj (boundaries P ph)) (get_subset_vector goods)) j = Some l ->
+  0 <= l ->
+  exists k a b, nth_error (adj (boundaries P ph)) k = Some (a, b) /\
+    (a <= i < b)%nat /\ (a <= j < b)%nat /\
+    nth_error (get_subset_vector goods) k = Some l.
+Proof.
+  intros P rg mask ph goods i j l Hne Hg Hi Hj Hl.
+  destruct (gcv_out_inv _ _ _ _ _ _ _ Hne Hg Hi)
+    as [k [a [b [g [Hk [Hab [Hgk [_ [Hlk _]]]]]]]]].
+  destruct (gcv_out_inv _ _ _ _ _ _ _ Hne Hg Hj)
+    as [k' [a' [b' [g' [Hk' [Hab' [Hgk' [_ [Hlk' _]]]]]]]]].
+  assert (k = k') by (eapply sv_inj; eauto). subst k'.
+  rewrite Hk in Hk'. injection Hk' as <- <-.
+  exists k, a, b. auto.
+Qed.
+
+Lemma label_runs_contiguous : forall P rg mask ph out i j m l,
+  get_cycle_vector P rg mask ph = Some out ->
+  nth_error out i = Some l -> nth_error out j = Some l -> 0 <= l ->
+  (i <= m <= j)%nat -> nth_error out m = Some l.
+Proof.
+  intros P rg mask ph out i j m l H Hi Hj Hl Hm. apply gcv_struct in H.
+  destruct H as [[_ ->]|[Hne [goods [Hg ->]]]].
+  - apply nth_error_repeat_inv in Hi. lia.
+  - destruct (same_label_same_seg _ _ _ _ _ _ _ _ Hne Hg Hi Hj Hl)
+      as [k [a [b [Hk [Hia [Hja Hlk]]]]]].
+    eapply out_nth; eauto. lia.
+Qed.
+
+Lemma no_internal_wrap : forall P rg mask ph out i l,
+  get_cycle_vector P rg mask ph = Some out ->
+  nth_error out i = Some l -> nth_error out (S i) = Some l -> 0 <= l ->
+  ~ wrap_at P ph (S i).
+Proof.
+  intros P rg mask ph out i l H Hi Hj Hl Hw. apply gcv_struct in H.
+  destruct H as [[_ ->]|[Hne [goods [Hg ->]]]].
+  - apply nth_error_repeat_inv in Hi. lia.
+  - destruct (same_label_same_seg _ _ _ _ _ _ _ _ Hne Hg Hi Hj Hl)
+      as [k [a [b [Hk [Hia [Hja Hlk]]]]]].
+    apply (adj_no_boundary_inside _ k a b (S i) (boundaries_sorted P ph Hne) Hk).
+    + apply boundaries_In. right; left; exact Hw.
+    + lia.
+Qed.
+
+Lemma run_begins_at_wrap_or_start : forall P rg mask ph out i l,
+  get_cycle_vector P rg mask ph = Some out ->
+  nth_error out i = Some l -> 0 <= l ->
+  (i = 0%nat \/ exists x, nth_error out (i - 1) = Some x /\ x <> l) ->
+  i = 0%nat \/ wrap_at P ph i.
+Proof.
+  intros P rg mask ph out i l H Hi Hl Hprev.
+  destruct (Nat.eq_dec i 0) as [E|E]; [left; exact E|right].
+  destruct Hprev as [E0|[x [Hx Hxl]]]; [contradiction|].
+  apply gcv_struct in H. destruct H as [[_ ->]|[Hne [goods [Hg ->]]]].
+  - apply nth_error_repeat_inv in Hi. lia.
+  - destruct (gcv_out_inv _ _ _ _ _ _ _ Hne Hg Hi)
+      as [k [a [b [g [Hk [Hab [Hgk [_ [Hlk _]]]]]]]]].
+    pose proof (seg_bounds P ph k a b Hne Hk) as Hb.
+    destruct (Nat.eq_dec a i) as [Ea|Ea].
+    + subst a. apply adj_nth_inv in Hk. destruct Hk as [Ha _]. apply nth_error_In in Ha.
+      apply boundaries_In in Ha. destruct Ha as [Ha|[Ha|Ha]]; [lia|exact Ha|lia].
+    + exfalso. apply Hxl.
+      assert (Hp : nth_error (expand (adj (boundaries P ph)) (get_subset_vector goods)) (i - 1)
+                   = Some l) by (eapply out_nth; eauto; lia).
+      congruence.
+Qed.
+
+Lemma run_ends_at_wrap_or_end : forall P rg mask ph out i l,
+  get_cycle_vector P rg mask ph = Some out ->
+  nth_error out i = Some l -> 0 <= l ->
+  (S i = length ph \/ exists x, nth_error out (S i) = Some x /\ x <> l) ->
+  S i = length ph \/ wrap_at P ph (S i).
+Proof.
+  intros P rg mask ph out i l H Hi Hl Hnext.
+  destruct Hnext as [E0|[x [Hx Hxl]]]; [left; exact E0|].
+  apply gcv_struct in H. destruct H as [[_ ->]|[Hne [goods [Hg ->]]]].
+  - apply nth_error_repeat_inv in Hi. lia.
+  - destruct (gcv_out_inv _ _ _ _ _ _ _ Hne Hg Hi)
+      as [k [a [b [g [Hk [Hab [Hgk [_ [Hlk _]]]]]]]]].
+    pose proof (seg_bounds P ph k a b Hne Hk) as Hb.
+    destruct (Nat.eq_dec b (S i)) as [Eb|Eb].
+    + subst b. apply adj_nth_inv in Hk. destruct Hk as [_ Hb']. apply nth_error_In in Hb'.
+      apply boundaries_In in Hb'. destruct Hb' as [Hb'|[Hb'|Hb']]; [lia|right; exact Hb'|left; exact Hb'].
+    + exfalso. apply Hxl.
+      assert (Hp : nth_error (expand (adj (boundaries P ph)) (get_subset_vector goods)) (S i)
+                   = Some l) by (eapply out_nth; eauto; lia).
+      congruence.
+Qed.
+
+Lemma all_cycles_cover : forall P ph out,
+  get_cycle_vector P false None ph = Some out ->
+  (exists i, wrap_at P ph i) ->
+  Forall (fun x => 0 <= x) out.
+Proof.
+  intros P ph out H [i0 Hw]. apply gcv_struct in H.
+  destruct H as [[E _]|[Hne [goods [Hg ->]]]].
+  - apply wrap_hits_In in Hw. rewrite E in Hw. destruct Hw.
+  - apply Forall_forall. intros x Hx. apply In_nth_error in Hx. destruct Hx as [i Hi].
+    destruct (gcv_out_inv _ _ _ _ _ _ _ Hne Hg Hi)
+      as [k [a [b [g [Hk [Hab [Hgk [Hacc [_ ->]]]]]]]]].
+    unfold seg_accept, mask_ok in Hacc. cbn [negb] in Hacc. injection Hacc as <-.
+    unfold label_of. lia.
+Qed.
+
+Lemma no_wrap_no_cycles : forall P rg mask ph,
+  (forall i, ~ wrap_at P ph i) ->
+  get_cycle_vector P rg mask ph = Some (repeat (-1) (length ph)).
+Proof.
+  intros P rg mask ph H. unfold get_cycle_vector. rewrite (no_wrap_no_hits P ph H). reflexivity.
+Qed.
+
+Lemma all_cycles_cover_v0_refuted : exists P ph out,
+  get_cycle_vector_v0 P false None ph = Some out /\
+  (exists i, wrap_at P ph i) /\ ~ Forall (fun x => 0 <= x) out.
+Proof.
+  exists {| step := 37; e_lo := 2; e_hi := 49; twopi := 50 |}, [2; 24; 50; 2; 36; 50; 2],
+         [0; 0; 0; 1; 1; 1; -1].
+  split; [vm_compute; reflexivity|]. split.
+  - exists 3%nat. split; [lia|]. exists 50, 2. split; [reflexivity|]. split; [reflexivity|].
+    cbn [step]. lia.
+  - intros H. rewrite Forall_forall in H. specialize (H (-1)).
+    assert (Hin : In (-1) [0; 0; 0; 1; 1; 1; -1]) by (cbn [In]; tauto).
+    specialize (H Hin). lia.
+Qed.
+
+Lemma detection_total_v0_refuted : exists P ph, get_cycle_vector_v0 P true None ph = None.
+Proof.
+  exists {| step := 37; e_lo := 2; e_hi := 49; twopi := 50 |}, [2; 24; 50; 2; 36; 50; 2].
+  vm_compute. reflexivity.
+Qed.
+
+Lemma c12_premises_hold :
+  let P := {| step := 37; e_lo := 2; e_hi := 49; twopi := 50 |} in
+  get_cycle_vector P false None [2; 24; 50; 2; 36; 50; 2] = Some [0; 0; 0; 1; 1; 1; 2] /\
+  wrap_at P [2; 24; 50; 2; 36; 50; 2] 6.
+Proof.
+  intros P. split; [vm_compute; reflexivity|].
+  split; [lia|]. exists 50, 2. split; [reflexivity|]. split; [reflexivity|].
+  unfold P. cbn [step]. lia.
+Qed.
+
+(* ---------- C13 --------------------------------------------------------------- *)
+
+Lemma seg_accept_good_iff : forall P mask ph a b, (a < b <= length ph)%nat ->
+  (seg_accept P true mask ph (a, b) = Some true <-> meets_criteria P mask ph a b).
+Proof.
+  intros P mask ph a b Hab. unfold seg_accept, meets_criteria.
+  pose proof (slice_nonempty _ ph a b Hab) as Hne.
+  destruct (mask_ok mask a b); cbn [negb].
+  2:{ split; [discriminate|]. intros [_ [_ [_ H]]]. discriminate. }
+  unfold is_good. destruct (slice ph a b) as [|f t] eqn:E; [congruence|].
+  cbv zeta. cbn [hd]. rewrite (last_indep _ (f :: t) f 0) by discriminate.
+  split.
+  - intros H. injection H as H. rewrite !andb_true_iff in H. rewrite !Z.leb_le in H.
+    destruct H as [[H1 [H2 H3]] [H4 H5]]. repeat split; assumption.
+  - intros [H1 [[H2 H3] [[H4 H5] _]]]. f_equal. rewrite !andb_true_iff, !Z.leb_le.
+    repeat split; assumption.
+Qed.
+
+Lemma good_iff : forall P mask ph out a b,
+  get_cycle_vector P true mask ph = Some out ->
+  wrap_hits P ph <> [] ->
+  In (a, b) (adj (boundaries P ph)) ->
+  ((forall i, (a <= i < b)%nat -> nth_error out i = Some (-1)) \/
+   (exists l, 0 <= l /\ forall i, (a <= i < b)%nat -> nth_error out i = Some l)) /\
+  ((exists l, 0 <= l /\ forall i, (a <= i < b)%nat -> nth_error out i = Some l)
+   <-> meets_criteria P mask ph a b).
+Proof.
+  intros P mask ph out a b H Hne Hin. apply gcv_struct in H.
+  destruct H as [[E _]|[_ [goods [Hg ->]]]]; [congruence|].
+  apply In_nth_error in Hin. destruct Hin as [k Hk].
+  pose proof (seg_bounds P ph k a b Hne Hk) as Hb.
+  destruct (goods_nth _ _ _ _ _ goods k (a, b) Hg Hk) as [g [Hgk Hacc]].
+  assert (Hall : forall i, (a <= i < b)%nat ->
+            nth_error (expand (adj (boundaries P ph)) (get_subset_vector goods)) i
+            = Some (label_of goods k g)).
+  { intros i Hi. eapply out_nth; eauto. apply label_nth; exact Hgk. }
+  rewrite <- (seg_accept_good_iff P mask ph a b Hb). rewrite Hacc.
+  split.
+  - destruct g.
+    + right. exists (label_of goods k true).
+      split; [apply label_of_nonneg; reflexivity|exact Hall].
+    + left. exact Hall.
+  - split.
+    + intros [l [Hl Hl']]. specialize (Hl' a ltac:(lia)). rewrite (Hall a ltac:(lia)) in Hl'.
+      injection Hl' as <-. apply label_of_nonneg in Hl. congruence.
+    + intros Hgt. injection Hgt as ->. exists (label_of goods k true).
+      split; [apply label_of_nonneg; reflexivity|exact Hall].
+Qed.
+
+(* the all-cycles run accepts every segment, so segment k is labelled k *)
+Lemma goodsA_true : forall P ph segs goods j,
+  all_some (map (seg_accept P false None ph) segs) = Some goods ->
+  (j < length segs)%nat -> nth_error goods j = Some true.
+Proof.
+  intros P ph segs goods j H Hj.
+  destruct (nth_error segs j) as [ab|] eqn:E; [|apply nth_error_None in E; lia].
+  destruct (goods_nth _ _ _ _ _ _ _ _ H E) as [g [Hg Hacc]]. destruct ab as [a b].
+  unfold seg_accept, mask_ok in Hacc. cbn [negb] in Hacc. congruence.
+Qed.
+
+Lemma labelsA_nth : forall P ph segs goods k,
+  all_some (map (seg_accept P false None ph) segs) = Some goods ->
+  (k < length segs)%nat -> nth_error (get_subset_vector goods) k = Some (Z.of_nat k).
+Proof.
+  intros P ph segs goods k H Hk.
+  rewrite subset_vector_spec, (goodsA_true P ph segs goods k H Hk). cbn [option_map].
+  rewrite count_true_all; [reflexivity|].
+  intros j Hj. eapply goodsA_true; eauto. lia.
+Qed.
+
+Lemma zmax_repeat : forall n, zmax_list (-1) (repeat (-1) n) = -1.
+Proof. induction n as [|n IH]; cbn [repeat zmax_list]; [reflexivity|rewrite IH; reflexivity]. Qed.
+
+Lemma ncycles_all : forall P ph goods, wrap_hits P ph <> [] ->
+  all_some (map (seg_accept P false None ph) (adj (boundaries P ph))) = Some goods ->
+  ncycles (expand (adj (boundaries P ph)) (get_subset_vector goods))
+  = length (adj (boundaries P ph)).
+Proof.
+  intros P ph goods Hne Hg. unfold ncycles.
+  set (out := expand (adj (boundaries P ph)) (get_subset_vector goods)).
+  set (n := length (adj (boundaries P ph))).
+  assert (Hn : (1 <= n)%nat) by (unfold n; rewrite segs_length; lia).
+  assert (Hub : forall x, In x out -> x < Z.of_nat n).
+  { intros x Hx. apply expand_In in Hx. apply In_nth_error in Hx. destruct Hx as [k Hk].
+    assert (Hkn : (k < n)%nat).
+    { unfold n. rewrite <- (goods_length _ _ _ _ _ _ Hg), <- sv_length.
+      apply nth_error_Some. congruence. }
+    rewrite (labelsA_nth _ _ _ _ k Hg Hkn) in Hk. injection Hk as <-. lia. }
+  assert (Hlast : In (Z.of_nat (n - 1)) out).
+  { destruct (nth_error (adj (boundaries P ph)) (n - 1)) as [[a b]|] eqn:Ek;
+      [|apply nth_error_None in Ek; fold n in Ek; lia].
+    pose proof (seg_bounds P ph _ a b Hne Ek) as Hb.
+    apply (nth_error_In _ a). unfold out. eapply out_nth; eauto; [|lia].
+    apply (labelsA_nth _ _ _ _ (n - 1)%nat Hg). fold n. lia. }
+  pose proof (zmax_list_ge (-1) out _ Hlast) as Hge.
+  assert (E : zmax_list (-1) out + 1 = Z.of_nat n).
+  { destruct (zmax_list_in (-1) out) as [E|I]; [lia|]. specialize (Hub _ I). lia. }
+  rewrite E. apply Nat2Z.id.
+Qed.
+
+Lemma good_is_renumbered_subset : forall P mask ph allv good,
+  get_cycle_vector P false None ph = Some allv ->
+  get_cycle_vector P true mask ph = Some good ->
+  exists g : list bool,
+    length g = ncycles allv /\
+    good = map (fun k => nth (Z.to_nat k) (get_subset_vector g) (-1)) allv.
+Proof.
+  intros P mask ph allv good HA HG. apply gcv_struct in HA. apply gcv_struct in HG.
+  destruct HA as [[EA ->]|[Hne [gA [HgA ->]]]].
+  - destruct HG as [[_ ->]|[Hne _]]; [|congruence].
+    exists []. split.
+    + unfold ncycles. rewrite zmax_repeat. reflexivity.
+    + rewrite map_repeat_const. reflexivity.
+  - destruct HG as [[E _]|[_ [g [Hg ->]]]]; [congruence|].
+    exists g. split.
+    + rewrite (ncycles_all P ph gA Hne HgA). eapply goods_length; eauto.
+    + rewrite expand_map. f_equal. apply nth_error_ext_eq. intros k.
+      rewrite nth_error_map.
+      assert (Hlg : length (get_subset_vector g) = length (adj (boundaries P ph))).
+      { rewrite sv_length. eapply goods_length; eauto. }
+      destruct (lt_dec k (length (adj (boundaries P ph)))) as [L|L].
+      * rewrite (labelsA_nth _ _ _ _ k HgA L). cbn [option_map]. rewrite Nat2Z.id.
+        apply nth_error_nth'. lia.
+      * assert (E1 : nth_error (get_subset_vector g) k = None) by (apply nth_error_None; lia).
+        assert (E2 : nth_error (get_subset_vector gA) k = None).
+        { apply nth_error_None. rewrite sv_length, (goods_length _ _ _ _ _ _ HgA). lia. }
+        rewrite E1, E2. reflexivity.
+Qed.
+
+Lemma select_cycle_all : forall P ph goods k a b, wrap_hits P ph <> [] ->
+  all_some (map (seg_accept P false None ph) (adj (boundaries P ph))) = Some goods ->
+  nth_error (adj (boundaries P ph)) k = Some (a, b) ->
+  select_cycle (expand (adj (boundaries P ph)) (get_subset_vector goods)) ph (Z.of_nat k)
+  = slice ph a b.
+Proof.
+  intros P ph goods k a b Hne Hg Hk. unfold select_cycle, map_cycle_to_samples.
+  pose proof (seg_bounds P ph k a b Hne Hk) as Hb.
+  assert (Hkn : (k < length (adj (boundaries P ph)))%nat) by (apply nth_error_Some; congruence).
+  assert (E : positions (Z.eqb (Z.of_nat k))
+                (expand (adj (boundaries P ph)) (get_subset_vector goods)) = seq a (b - a)).
+  { apply sorted_ext; [apply positions_sorted|apply seq_sorted|].
+    intros i. rewrite In_positions, in_seq. split.
+    - intros [x [Hx He]]. apply Z.eqb_eq in He. subst x.
+      destruct (gcv_out_inv _ _ _ _ _ _ _ Hne Hg Hx)
+        as [k' [a' [b' [g [Hk' [Hab' [_ [_ [Hl _]]]]]]]]].
+      assert (Hkn' : (k' < length (adj (boundaries P ph)))%nat)
+        by (apply nth_error_Some; congruence).
+      rewrite (labelsA_nth _ _ _ _ k' Hg Hkn') in Hl. injection Hl as Hl.
+      apply Nat2Z.inj in Hl. subst k'. rewrite Hk in Hk'. injection Hk' as <- <-. lia.
+    - intros Hi. exists (Z.of_nat k). split; [|apply Z.eqb_refl].
+      eapply out_nth; eauto; [|lia]. apply (labelsA_nth _ _ _ _ k Hg Hkn). }
+  rewrite E. unfold slice. apply map_nth_seq. lia.
+Qed.
+
+Lemma nth_error_seq : forall a n k, (k < n)%nat -> nth_error (seq a n) k = Some (a + k)%nat.
+Proof.
+  intros a n k H. rewrite (nth_error_nth' _ 0%nat) by (rewrite seq_length; lia).
+  rewrite seq_nth by lia. reflexivity.
+Qed.
+
+Lemma is_good_some : forall P seg, seg <> [] -> is_good P seg <> None.
+Proof. intros P seg H. destruct seg; [congruence|]. discriminate. Qed.
+
+Lemma container_flag_agrees : forall P ph flags allv good,
+  container_is_good P ph = Some flags ->
+  get_cycle_vector P false None ph = Some allv ->
+  get_cycle_vector P true None ph = Some good ->
+  length flags = ncycles allv /\
+  Forall (fun f => f <> None) flags /\
+  (forall i k, nth_error allv i = Some k -> 0 <= k ->
+     (nth_error flags (Z.to_nat k) = Some (Some true) <->
+      exists l, nth_error good i = Some l /\ 0 <= l)).
+Proof.
+  intros P ph flags allv good HC HA HG. unfold container_is_good in HC. rewrite HA in HC.
+  injection HC as <-.
+  split; [rewrite map_length, seq_length; reflexivity|].
+  apply gcv_struct in HA. apply gcv_struct in HG.
+  destruct HA as [[EA ->]|[Hne [gA [HgA ->]]]].
+  - split.
+    + unfold ncycles. rewrite zmax_repeat. constructor.
+    + intros i k Hk Hk0. apply nth_error_repeat_inv in Hk. lia.
+  - destruct HG as [[E _]|[_ [g [Hg ->]]]]; [congruence|].
+    rewrite (ncycles_all P ph gA Hne HgA).
+    split.
+    + apply Forall_forall. intros f Hf. apply in_map_iff in Hf. destruct Hf as [k [<- Hk]].
+      apply in_seq in Hk.
+      destruct (nth_error (adj (boundaries P ph)) k) as [[a b]|] eqn:Ek;
+        [|apply nth_error_None in Ek; lia].
+      rewrite (select_cycle_all P ph gA k a b Hne HgA Ek).
+      apply is_good_some. apply slice_nonempty. eapply seg_bounds; eauto.
+    + intros i k Hk Hk0.
+      destruct (gcv_out_inv _ _ _ _ _ _ _ Hne HgA Hk)
+        as [kk [a [b [gg [Hkk [Hab [_ [_ [Hl _]]]]]]]]].
+      assert (Hkn : (kk < length (adj (boundaries P ph)))%nat)
+        by (apply nth_error_Some; congruence).
+      rewrite (labelsA_nth _ _ _ _ kk HgA Hkn) in Hl. injection Hl as <-.
+      rewrite Nat2Z.id. rewrite nth_error_map, (nth_error_seq 0 _ kk Hkn).
+      cbn [option_map Nat.add].
+      rewrite (select_cycle_all P ph gA kk a b Hne HgA Hkk).
+      destruct (gcv_out_nth P true None ph g kk a b i Hne Hg Hkk Hab) as [gd [Hgd [Hacc Hout]]].
+      unfold seg_accept, mask_ok in Hacc. cbn [negb] in Hacc. rewrite Hacc, Hout.
+      split.
+      * intros H. injection H as ->. exists (label_of g kk true).
+        split; [reflexivity|apply label_of_nonneg; reflexivity].
+      * intros [l [Hl Hl0]]. injection Hl as <-. apply label_of_nonneg in Hl0.
+        subst gd. reflexivity.
+Qed.
+
+Lemma container_flag_v0_refuted : exists Pd P ph flags allv good i k,
+  container_is_good_v0 Pd P ph = Some flags /\
+  get_cycle_vector P false None ph = Some allv /\
+  get_cycle_vector P true None ph = Some good /\
+  nth_error allv i = Some k /\ 0 <= k /\
+  nth_error flags (Z.to_nat k) = Some (Some true) /\
+  nth_error good i = Some (-1).
+Proof.
+  exists {| step := 37; e_lo := 2; e_hi := 49; twopi := 50 |},
+         {| step := 37; e_lo := 1; e_hi := 50; twopi := 50 |},
+         [50; 2; 24; 50; 2],
+         [Some false; Some true; Some false],
+         [0; 1; 1; 1; 2],
+         [-1; -1; -1; -1; -1],
+         1%nat, 1.
+  split; [vm_compute; reflexivity|].
+  split; [vm_compute; reflexivity|].
+  split; [vm_compute; reflexivity|].
+  split; [reflexivity|].
+  split; [lia|].
+  split; reflexivity.
+Qed.
+
+Lemma c13_premises_hold :
+  let P := {| step := 37; e_lo := 2; e_hi := 49; twopi := 50 |} in
+  get_cycle_vector P true None [24; 50; 2; 24; 50; 2; 36] = Some [-1; -1; 0; 0; 0; -1; -1] /\
+  meets_criteria P None [24; 50; 2; 24; 50; 2; 36] 2 5.
+Proof.
+  intros P. split; [vm_compute; reflexivity|].
+  assert (E : slice [24; 50; 2; 24; 50; 2; 36] 2 5 = [2; 24; 50]) by reflexivity.
+  unfold meets_criteria. cbv zeta. rewrite E. unfold P. cbn [hd last e_lo e_hi twopi].
+  split; [reflexivity|]. split; [lia|]. split; [lia|reflexivity].
+Qed.
